@@ -7,8 +7,9 @@ LEVEL = "proof"
 HARNESSES = [("h_serde", "asan"), ("h_serde", "rel")]
 ASSUMPTIONS = [
     "theorems about decoders that contain an Address quantify over the external address normalisation addr_norm and carry "
-    "the premise addr_norm_sound (type byte, at most VBK_ADDRESS_SIZE bytes, idempotent); the driver instantiates it with "
-    "the real base58/base59 + sha256 logic",
+    "the premise addr_norm_sound (type byte, at most VBK_ADDRESS_SIZE bytes, idempotent); the premise is discharged for the "
+    "concrete addr_norm_c18 of the C18 address model (C06_addr_norm_sound_discharged, C06_parse_total_*_concrete); the driver "
+    "instantiates it with the real base58/base59 + sha256 logic",
     "memory safety of the compiled code is OBSERVED (ASan+UBSan build of the library and harness, exactly-sized heap "
     "buffers), not proved; the theorems are about the model's explicit access discipline (Oob / BadAlloc outcomes)",
     "the progpow kernel is never entered in the UBSan-instrumented run (VERIF_NO_PROGPOW=1): its keccak_f800 left-shifts "
@@ -30,10 +31,10 @@ META = {
             "abort, escaped exception or timeout is a violation whose replay is the input.",
     "note": "partial by nature: sanitizers observe the compiled code, the proof covers the model. Not modelled here: the "
             "stateless checks themselves (signature, merkle) — run for crashes/throws only; the accepted address wire forms are stated over the C18 address model "
-            "(C06_address_accepted_wire_forms; idempotence/length premise addr_norm_sound not discharged); containsSplit as "
+            "(C06_address_accepted_wire_forms; the premise addr_norm_sound is discharged for the concrete normalisation, C06_addr_norm_sound_discharged); containsSplit as "
             "coded is covered "
             "by Properties_C05 (C05_split_no_oob) and is driven here with structured hostile split descriptors under ASan; steps_linear not proved; "
-            "BFI is not covered. Trusted: as C11.",
+            "BFI wire types are covered by the BFI stage of C11 (round trips/sizes), not fuzzed here. Trusted: as C11.",
     "technique": "Coq proof (total parsers with explicit unsafe outcomes) + sanitizer-instrumented differential fuzzing",
 }
 
